@@ -599,3 +599,185 @@ func endsInIndexBelowLen(b *ssa.BasicBlock) bool {
 	_, isSlice := call.Call.Args[0].Type().Underlying().(*types.Slice)
 	return isSlice
 }
+
+// ---- C15.APPLIES: a `paths` entry applies to a file iff its glob matches the path ----
+
+func init() {
+	register(&Rule{ID: "C15.APPLIES", Min: 3, Doc: "a `paths` entry of the configuration applies to a file iff its glob matches the path handed in", Run: runC15Applies})
+}
+
+func runC15Applies(c *Ctx) {
+	p := c.P
+	fn := p.Method("Config", "PathConfigs")
+	if fn == nil {
+		c.anchorMissing("(*Config).PathConfigs")
+		return
+	}
+	if len(fn.Params) != 2 {
+		c.undecided("(*Config).PathConfigs|signature", fn.Pos(), "expected a receiver and one path parameter")
+		return
+	}
+	recv, path := fn.Params[0], fn.Params[1]
+	// the path as given, at most converted to slashes
+	var isPath func(v ssa.Value, d int) bool
+	isPath = func(v ssa.Value, d int) bool {
+		if d > 4 {
+			return false
+		}
+		switch x := v.(type) {
+		case *ssa.Parameter:
+			return x == path
+		case *ssa.Call:
+			return calleeFullName(&x.Call) == "path/filepath.ToSlash" && isPath(x.Call.Args[0], d+1)
+		case *ssa.Phi:
+			for _, e := range x.Edges {
+				if !isPath(e, d+1) {
+					return false
+				}
+			}
+			return len(x.Edges) > 0
+		}
+		return false
+	}
+	// appends to the result
+	var apps []*ssa.Call
+	eachInstr(fn, func(_ *ssa.BasicBlock, _ int, in ssa.Instruction) {
+		if call, ok := in.(*ssa.Call); ok {
+			if bi, ok := call.Call.Value.(*ssa.Builtin); ok && bi.Name() == "append" && typeStr(call.Type()) == "[]PathConfig" {
+				apps = append(apps, call)
+			}
+		}
+	})
+	iffWhy, exitWhy := "", ""
+	var iffPos, exitPos0 token.Pos = fn.Pos(), fn.Pos()
+	if len(apps) == 0 {
+		iffWhy = "no entry is ever appended to the result"
+	}
+	for _, app := range apps {
+		iffPos = app.Pos()
+		elems, ok := variadicArgs(app.Call.Args[1])
+		if !ok || len(elems) != 1 {
+			iffWhy = "the result is not extended by one entry at a time"
+			continue
+		}
+		field, idx := rangePart(elems[0])
+		if field != "Config.Paths" || idx != 2 {
+			iffWhy = "what is appended is not the value of the entry of Config.Paths the loop stands at"
+			continue
+		}
+		nx := elems[0].(*ssa.Extract).Tuple.(*ssa.Next)
+		if ex := loopSideExit(nx.Block()); ex != nil {
+			exitWhy = "the loop over Config.Paths is left from inside its body (break or return at " + p.Pos(exitPos(ex)) + "): the entries behind that point do not apply although their glob may match"
+			exitPos0 = exitPos(ex)
+		}
+		matched := false
+		for ifi, outcome := range controllingConds(app.Block()) {
+			cond := ifi.Cond
+			if ex, ok := cond.(*ssa.Extract); ok {
+				if _, isNext := ex.Tuple.(*ssa.Next); isNext {
+					continue // the loop condition
+				}
+				if _, isCall := ex.Tuple.(*ssa.Call); isCall && ex.Index == 0 {
+					cond = ex.Tuple
+				}
+			}
+			if v, nilSucc, ok := nilTest(ifi); ok && v == ssa.Value(recv) {
+				if (nilSucc == 0) == outcome {
+					iffWhy = "an entry is appended on the path on which the configuration is nil"
+				}
+				continue
+			}
+			call, ok := cond.(*ssa.Call)
+			if !ok || !strings.Contains(calleeFullName(&call.Call), "/doublestar") || !strings.Contains(calleeFullName(&call.Call), "Match") || len(call.Call.Args) != 2 {
+				iffWhy = "whether an entry applies additionally depends on a condition that is not the glob match (`" + cond.String() + "` at " + p.Pos(exitPos(ifi.Block())) + ")"
+				continue
+			}
+			kf, kidx := rangePart(call.Call.Args[0])
+			switch {
+			case !outcome:
+				iffWhy = "the entry is appended when its glob does NOT match"
+			case kf != "Config.Paths" || kidx != 1 || call.Call.Args[0].(*ssa.Extract).Tuple != ssa.Value(nx):
+				iffWhy = "the pattern handed to the glob matcher is not the key of the entry that is appended"
+			case !isPath(call.Call.Args[1], 0):
+				iffWhy = "the name handed to the glob matcher is not the path parameter (converted to slashes at most)"
+			default:
+				matched = true
+			}
+		}
+		if !matched && iffWhy == "" {
+			iffWhy = "the append of an entry is not control-dependent on the glob match of its key"
+		}
+	}
+	if iffWhy != "" {
+		c.bad("(*Config).PathConfigs|entry applies iff its glob matches", iffPos, iffWhy)
+	} else {
+		c.ok("(*Config).PathConfigs|entry applies iff its glob matches", iffPos, "the value of an entry is appended exactly under doublestar match(<its key>, <the path>)")
+	}
+	if exitWhy != "" {
+		c.bad("(*Config).PathConfigs|every entry consulted", exitPos0, exitWhy)
+	} else {
+		c.ok("(*Config).PathConfigs|every entry consulted", fn.Pos(), "the loop over Config.Paths is left only at its header")
+	}
+	// what is returned: the accumulated slice; nil only for a nil configuration
+	retWhy := ""
+	var fromApps func(v ssa.Value, seen map[ssa.Value]bool) bool
+	fromApps = func(v ssa.Value, seen map[ssa.Value]bool) bool {
+		if seen[v] {
+			return true
+		}
+		seen[v] = true
+		switch x := v.(type) {
+		case *ssa.Const:
+			return x.IsNil()
+		case *ssa.Phi:
+			for _, e := range x.Edges {
+				if !fromApps(e, seen) {
+					return false
+				}
+			}
+			return true
+		case *ssa.MakeSlice:
+			return true
+		case *ssa.Call:
+			for _, a := range apps {
+				if a == x {
+					return fromApps(x.Call.Args[0], seen)
+				}
+			}
+		}
+		return false
+	}
+	for _, b := range fn.Blocks {
+		ret, ok := b.Instrs[len(b.Instrs)-1].(*ssa.Return)
+		if !ok || len(ret.Results) != 1 {
+			continue
+		}
+		r := ret.Results[0]
+		if k, ok := r.(*ssa.Const); ok && k.IsNil() {
+			guarded := false
+			for ifi, outcome := range controllingConds(b) {
+				if v, nilSucc, ok := nilTest(ifi); ok && v == ssa.Value(recv) && (nilSucc == 0) == outcome {
+					guarded = true
+				}
+			}
+			if !guarded {
+				retWhy = "nil is returned at " + p.Pos(ret.Pos()) + " on a path on which the configuration exists: the collected entries are dropped"
+			}
+			continue
+		}
+		if _, isPhi := r.(*ssa.Phi); !isPhi {
+			if _, isCall := r.(*ssa.Call); !isCall {
+				retWhy = "the value returned at " + p.Pos(ret.Pos()) + " is not the slice the entries were appended to"
+				continue
+			}
+		}
+		if !fromApps(r, map[ssa.Value]bool{}) {
+			retWhy = "the value returned at " + p.Pos(ret.Pos()) + " is not the slice the entries were appended to"
+		}
+	}
+	if retWhy != "" {
+		c.bad("(*Config).PathConfigs|result", fn.Pos(), retWhy)
+	} else {
+		c.ok("(*Config).PathConfigs|result", fn.Pos(), "every return hands back the slice the matching entries were appended to (nil only for a nil configuration)")
+	}
+}
